@@ -46,7 +46,14 @@ CONNECT_RULE = ("random scripts of 1-8 attempts {transport error, cancellation i
                 "instant a script can name. Connect's return value counts as 'the context's error' only if it IS request.Context().Err() (==), never a cause or a look-alike. The Client has produced 0-2 other Connections before the one under test (NewConnection normalises the Client in place). A few scripts (12 quick / 100 thorough) "
                 "have slow attempts (RoundTrip and/or the end of the body sleep 1-3.5 ms) and waits of 1-16 ms that are really slept. One-sided timing observation on every script: for each "
                 "OnRetry call that is followed by a request, the monotonic time from the end of the call to the start of the RoundTrip is at least the duration handed to OnRetry (a timer never "
-                "fires early: cannot fail on timing); C12's oracle demands it. Non-trivial = distinct scripts (every one runs Connect on a real Connection).")
+                "fires early: cannot fail on timing); C12's oracle demands it. Every response (accepted or rejected) carries a STATUS CODE: 200 half of the time, else one of 36 "
+                "others (1xx, 201-226, 204/205 included, 300/304/305, 4xx, 5xx, 299, 999; not 301/302/303/307/308, which concern http.Client's redirect logic); the validator's verdict is "
+                "scripted, so the status is opaque to model and oracle - an accepted response is read and retried whatever its status, Connect never returns nil; the validator is the "
+                "harness's closure or, for scripts without a rejected response, sse.NoopValidator (half of those); plus a sweep: every status x {closure accepting, NoopValidator, closure "
+                "rejecting} x {no body, one event, a cut line}, two more attempts behind. Retry values that are NEAR-NUMERALS (half of the invalid retry fields, and a sweep of ~120 values "
+                "alone / after a valid field): a positive numeral with white space (SP, two SP, TAB, VT, FF, NEL, NBSP, U+2000, U+2028, U+2029, U+3000) before it beyond the one space of "
+                "the field syntax, after it, around it or inside it, with a sign, unit, fraction, exponent, base prefix, digit separator, or in non-ASCII digits - all ignored, the wait stays "
+                "what it was. Non-trivial = distinct scripts (every one runs Connect on a real Connection).")
 
 PROPS["C10"] = {
     "families": ["connect_c10"],
